@@ -15,6 +15,11 @@ CHECKS["C01"] = ("exploration",
   "Generated legal writer programs (all entry kinds, methods x documented levels, names incl. UTF-8/NUL/backslash/empty/duplicates/16-bit boundary lengths, any valid timestamp, any permission bits, large_file, comments to 65535 bytes, hundreds to >65535 entries in thorough) are executed twice (finish and drop) and read back with varied caller buffers; every accessor is compared with a reference model of the program and an independent CRC-32. Failures shrink to a minimal program saved as a replay file.",
   "Third-party codecs (flate2, bzip2, zstd) are trusted; content/CRC oracle is independent of the crate. Symmetric reader/writer mistakes are the business of C02/C03.",
   "DESIGN.md §4 C01")
+CHECKS["C02"] = ("exploration",
+  "generated writer scenarios judged by an independent strict ZIP parser (differential vs. reference model) plus CPython zipfile / Info-ZIP unzip on a sample; enumerated out-of-range lengths with a reject-or-valid oracle",
+  "Generated scenarios (C01 programs plus extra-data, aligned, ZipCrypto, raw-copied and appended entries) are finished and the bytes are judged by a strict parser written from APPNOTE that shares no code with the crate (offsets/counts/sizes exact, local==central, UTF-8 flag, ZIP64 consistency incl. sentinel fields, TLV extras, decoded CRC/size, no gaps/overlaps) and compared field-by-field with the model; a sample of archives is also judged by CPython zipfile and unzip -t. Lengths around 65535/65536 for names, comments and extra data are enumerated: success with a corrupt archive or a panic is the violation.",
+  "Strict parser, CPython and Info-ZIP are the trusted judges (the parser is self-tested against CPython/unzip in setup); codecs trusted. Multi-GiB ZIP64 cases are in C08.",
+  "DESIGN.md §4 C02")
 PENDING = {}
 props = [json.loads(l) for l in open(os.path.join(ROOT, "properties.jsonl"))]
 checks = []
